@@ -3,7 +3,8 @@ open Pyrealb.C08Fr
 #print axioms notations_agree_fr_refuted
 #print axioms disagree_passive_agent_order
 #print axioms disagree_wos_plural
-#print axioms disagree_woi_crash
+#print axioms agree_woi_prep
+#print axioms disagree_whe_second_pp
 #print axioms disagree_modal_cod
 #print axioms disagree_other_prep_pronoun
 #print axioms clitic_agree_holds
